@@ -363,6 +363,10 @@ int KSI_RequestHandle_new(KSI_CTX *ctx, const unsigned char *request, size_t req
 	tmp->implCtx_free = NULL;
 	tmp->request = NULL;
 	tmp->request_length = 0;
+	tmp->response = NULL;
+	tmp->response_length = 0;
+	tmp->reqCtx = NULL;
+	tmp->reqCtx_free = NULL;
 	if (request != NULL && request_length > 0) {
 		tmp->request = KSI_calloc(request_length, 1);
 		if (tmp->request == NULL) {
